@@ -32,7 +32,35 @@ func init() { propFactories["C19"] = newC19 }
 
 func (p *c19) ID() string { return "C19" }
 
+// a hash with more entries than any small-size fast path would take, with keys
+// that print alike but differ in type
+var c19BigHash = func() string {
+	var b strings.Builder
+	b.WriteString("h = {")
+	for i := 0; i < 45; i++ {
+		if i > 0 {
+			b.WriteString(", ")
+		}
+		switch i % 5 {
+		case 0:
+			fmt.Fprintf(&b, "%d: \"i%d\"", i, i)
+		case 1:
+			fmt.Fprintf(&b, "\"%d\": \"s%d\"", i-1, i)
+		case 2:
+			fmt.Fprintf(&b, "\"k%d\": %d", i, i)
+		case 3:
+			fmt.Fprintf(&b, "%d.0: \"f%d\"", i-3, i)
+		default:
+			fmt.Fprintf(&b, "\"K%d\": [%d]", i-2, i)
+		}
+	}
+	b.WriteString("}; hv(string(h)); hv(keys(h)); n = 0; foreach k, v in h { n++; hv(k); } return n;")
+	return b.String()
+}()
+
 var c19Corpus = []string{
+	c19BigHash,
+	"x = " + strings.TrimSuffix(strings.SplitN(c19BigHash, "; hv(", 2)[0], "") + "; return len(keys(h)) + len(string(h));",
 	// regular-expression literals with several flags, seen as text
 	"x = /^h.*l$/im; hv(string(x)); return S ~= x;",
 	"return string(/a+/mi) + string(/a+/im) + string(/b/i) + string(/c/m);",
